@@ -1,4 +1,5 @@
 pub mod c01;
+pub mod c02;
 pub mod c03;
 pub mod c04;
 pub mod c05;
@@ -9,6 +10,7 @@ pub mod c09;
 pub mod c10;
 pub mod c11;
 pub mod c12;
+pub mod c13;
 pub mod c14;
 pub mod c15;
 pub mod c16;
@@ -41,6 +43,7 @@ macro_rules! entry {
 
 const TABLE: &[Entry] = &[
     entry!("C01", "model_checking", 50, 1500, c01),
+    entry!("C02", "exploration", 120, 3000, c02),
     entry!("C03", "model_checking", 50, 1500, c03),
     entry!("C04", "exploration", 55, 1500, c04),
     entry!("C05", "model_checking", 55, 1500, c05),
@@ -51,6 +54,7 @@ const TABLE: &[Entry] = &[
     entry!("C10", "exploration", 50, 1500, c10),
     entry!("C11", "exploration", 50, 1500, c11),
     entry!("C12", "fault_enumeration", 50, 600, c12),
+    entry!("C13", "exploration", 120, 3000, c13),
     entry!("C14", "exploration", 50, 1500, c14),
     entry!("C15", "exploration", 50, 900, c15),
     entry!("C16", "model_checking", 50, 1500, c16),
